@@ -21,15 +21,16 @@ func init() {
 func vH_C19_track_table_lockset() {
 	vDecSeqNr, vDecTime, vDecSamples = 7, 0, 3
 	vCreated, vRemoved = nil, nil
-	r, err := NewReceiver(context.Background(), &Options{prefix: "/upload", storage: "/storage"}, &Config{})
+	storage := vUploadSetup(7, 0)
+	r, err := NewReceiver(context.Background(), &Options{prefix: "/upload", storage: storage}, &Config{})
 	vAssert("C19.tracks.receiver-ok", err == nil)
 	init := &mp4.InitSegment{Moov: &mp4.MoovBox{Mvex: &mp4.MvexBox{Trex: &mp4.TrexBox{DefaultSampleDuration: 1000}}}}
-	ch := &channel{name: "chA", dir: "/storage/chA", trDatas: map[string]*trData{"video": {name: "video", contentType: "video", init: init, timeScaleIn: 90000, timeScaleOut: 90000}},
+	ch := &channel{name: "chA", dir: storage + "/chA", trDatas: map[string]*trData{"video": {name: "video", contentType: "video", init: init, timeScaleIn: 90000, timeScaleOut: 90000}},
 		repsCfg: map[string]RepresentationConfig{}, recSegCh: make(chan recSegData, 8)}
 	r.channelMgr.channels["chA"] = ch
-	vNextStream = stream{chName: "chA", trName: "video", ext: ".cmfv", mediaType: "video", chDir: "/storage/chA", trDir: "/storage/chA/video"}
+	vNextStream = stream{chName: "chA", trName: "video", ext: ".cmfv", mediaType: "video", chDir: storage + "/chA", trDir: storage + "/chA/video"}
 	r.streams[vNextStream.id()] = vNextStream
-	body := []byte{0, 0, 0, 8, 'm', 'o', 'o', 'f', 0, 0, 0, 8, 'm', 'd', 'a', 't'}
+	body := vMkUploadBody(7, 0)
 	w := &vRecW{hdr: http.Header{}}
 	req := &http.Request{Method: "PUT", URL: &url.URL{Path: "/upload/chA/video/seg.cmfv"}, Header: http.Header{}, Body: &vEnvBody{data: body}}
 	// request 1: a new (audio) track registers itself
